@@ -644,7 +644,7 @@ def constants_and_keywords(R, rng, tier):
         full = [oc.make_mv(alg, canon, [float(rng.randint(1, 5)) for _ in canon]) for _ in range(3)]
         def f_names(x, x1, xe):
             return x * x1 + (x | xe) - x1 * xe
-        for symbolic in ((True, False) if alg.d <= 2 else (False,)):        # (the symbolic route on full 4-D operands takes half a minute)
+        for symbolic in ((True, False) if alg.d <= 2 else ()):        # (dense 4-D operands take half a minute to generate)
             R.count('route=parameter-names'); R.case(('parameter-names', repr(spec), symbolic), True)
             want = as_items(f_names(*full))
             try:
